@@ -11,11 +11,28 @@ from infra import BAD_FIXTURE, Report, Sink, loc
 from terms import show
 
 # named exceptions: (function label, denominator name) -> reason.  An exception that no longer matches a site is reported as stale.
+def _pres(t):
+    from terms import subterms
+    return {x[1] for x in subterms(t) if x[0] == "pre"}
+
+
+def exc_price_level(den):
+    """the denominator is a price itself: a window slot or the input, selected by conditions, with no arithmetic"""
+    from terms import leaves
+    return all(isinstance(l, tuple) and (l == ("arg", "a0") or l[0] == "get" or (l[0] == "select" and isinstance(l[1], tuple) and l[1][0] == "pre")) for _, l in leaves(den))
+
+
+def exc_weight_only(den):
+    """the denominator is built from the weight/count/period fields and constants only"""
+    return _pres(den) <= {"self.weight", "self.count", "self.period"} and bool(_pres(den))
+
+
+# named exceptions: function label -> (predicate on the denominator term, reason). An exception that matches no unguarded division is reported as stale.
 EXCEPTIONS = {
-    ("RateOfChange::<Next<f64>>::next", "previous"):
-        "a price level: slot i of the ring is read only after it was written (count gating; the first call uses the input itself), so it is zero only if a zero price was fed, outside the premise",
-    ("WeightedMovingAverage::<Next<f64>>::next", "weight*weight+1.0/2.0"):
-        "weight = count as f64 after the first call's increment (the first call always takes the `count < period` branch because period >= 1; reset zeroes count and weight together), hence weight >= 1 and the denominator >= 1",
+    "RateOfChange::<Next<f64>>::next": (exc_price_level,
+        "a price level: slot i of the ring is read only after it was written (count gating; the first call uses the input itself), so it is zero only if a zero price was fed, outside the premise"),
+    "WeightedMovingAverage::<Next<f64>>::next": (exc_weight_only,
+        "weight = count as f64 after the first call's increment (the first call always takes the `count < period` branch because period >= 1; reset zeroes count and weight together), hence weight >= 1 and the denominator >= 1"),
 }
 NEUTRAL = {"FastStochastic": 50.0, "CommodityChannelIndex": 0.0}
 
@@ -39,8 +56,20 @@ def apply(F, S, exceptions=EXCEPTIONS):
                     g = F.fn_by_path[site["path"]]
                     nm = srcnames.div_names(g, site["block"], site["stmt"])
                     key = (site["fn"], site["block"], site["stmt"])
-                    rec = sites.setdefault(key, {"fn": site["fn"], "den": nm[1], "num": nm[0], "span": site["span"], "visits": []})
+                    rec = sites.setdefault(key, {"fn": site["fn"], "den": nm[1], "num": nm[0], "span": site["span"], "visits": [], "guards": []})
                     rec["visits"].append((s, den, show(site["operands"]["den"])[:120]))
+                    rec.setdefault("den_terms", []).append(site["operands"]["den"])
+                    if not den.contains_zero():
+                        # was it an equality guard that excluded zero?  evaluate again without the `!=` facts
+                        env2 = a.base_env()
+                        eqs = []
+                        for at, truth in site["facts"].items():
+                            if at[0] == "==" and truth is False:
+                                eqs.append(at)
+                            else:
+                                env2.assume(at, truth)
+                        if eqs and signs.evaluate(site["operands"]["den"], env2).contains_zero():
+                            rec["guards"].append((s, lab, r, eqs))
                 elif site["what"] == "sqrt":
                     env = a.site_env(site)
                     arg = signs.evaluate(site["operands"]["arg"], env)
@@ -58,16 +87,17 @@ def apply(F, S, exceptions=EXCEPTIONS):
         if not unsafe:
             S.ok("V1", inst, denominator=str(rec["visits"][0][1]), contexts=sorted({v[0] for v in rec["visits"]}))
             continue
-        if base in exceptions:
-            used_exc.add(base)
-            S.ok("V1", inst, named_exception=exceptions[base], denominator=str(unsafe[0][1]))
+        exc = exceptions.get(rec["fn"])
+        if exc and all(exc[0](d) for d in rec.get("den_terms", [])):
+            used_exc.add(rec["fn"])
+            S.ok("V1", inst, named_exception=exc[1], denominator=str(unsafe[0][1]))
             continue
         S.bad("V1", "div-unguarded", "%s:%s" % (rec["fn"], rec["den"]),
               "%s divides by `%s` (= %s, interval %s in the context of %s) without a dominating zero guard: on a flat / zero-flow window this is 0/0 = NaN"
               % (rec["fn"], rec["den"], unsafe[0][2], unsafe[0][1], ", ".join(sorted({u[0] for u in unsafe}))), loc(rec["span"]))
-    for base, why in exceptions.items():
-        if base not in used_exc:
-            S.bad("V1", "stale-exception", "%s:%s" % base, "named exception %s / `%s` no longer matches any unguarded division: remove it" % base)
+    for fnl in exceptions:
+        if fnl not in used_exc:
+            S.bad("V1", "stale-exception", fnl, "the named exception for %s no longer matches any unguarded division: remove it" % fnl)
     # V3 sqrt operands
     for key, rec in sorted(sq.items()):
         bad = [(s, d, t) for (s, d, t) in rec["visits"] if not (d.lo >= 0)]
@@ -76,6 +106,78 @@ def apply(F, S, exceptions=EXCEPTIONS):
             S.bad("V3", "sqrt-negative", rec["fn"], "%s takes the square root of %s (interval %s): a negative rounding residue gives NaN on a flat window" % (rec["fn"], bad[0][2], bad[0][1]), loc(rec["span"]))
         else:
             S.ok("V3", inst, operand=str(rec["visits"][0][1]))
+    # V4 a zero / equality guard must not test a quantity that carries the rounding residue of a running total
+    from terms import leaves as _leaves, is_const as _is_const, subterms as _subterms
+
+    def running_totals(s_, r_):
+        tot = set()
+        for k_, t_ in r_["heap"].items():
+            for p_, leaf_ in invariants.flatten(t_, k_, {}).items():
+                if not isinstance(leaf_, tuple) or invariants.path_type(F, s_, p_) != "f64":
+                    continue
+                subs_ = list(_subterms(leaf_))
+                if any(x == ("pre", p_) for x in subs_) and any(x[0] in ("arg", "get") for x in subs_):
+                    tot.add(p_)
+        return tot
+
+    reported = set()
+    for key in sorted(sites, key=lambda k: (k[0], k[1], k[2])):
+        rec = sites[key]
+        for (s_, lab_, r_, eqs) in rec["guards"]:
+            tot = running_totals(s_, r_)
+            for at in eqs:
+                dep = sorted({x[1] for side in (at[1], at[2]) for x in _subterms(side) if x[0] == "pre" and x[1] in tot})
+                if dep:
+                    kk = "%s:%s" % (lab_, "+".join(d.split(".", 1)[1] for d in dep))
+                    if kk in reported:
+                        continue
+                    reported.add(kk)
+                    S.bad("V4", "residue-prone-guard", kk,
+                          "%s guards the division by `%s` with an exact equality on a quantity derived from the running total(s) %s: after earlier activity such totals keep rounding residue, the test fails on a flat window and residue is divided by residue"
+                          % (lab_, rec["den"], ", ".join(dep)), loc(rec["span"]))
+    for s in F.indicators():
+        try:
+            a = invariants.analysis(F, s, "positive")
+        except Exception:
+            continue
+        for lab, (fn, r) in a.methods.items():
+            if fn.trait_short != "Next":
+                continue
+            # running totals of this (inlined) indicator: f64 state whose update depends on its own previous value and on the input
+            totals = set()
+            for k, t in r["heap"].items():
+                for p_, leaf in invariants.flatten(t, k, {}).items():
+                    if not isinstance(leaf, tuple):
+                        continue
+                    me = ("pre", p_)
+                    subs = list(_subterms(leaf))
+                    if invariants.path_type(F, s, p_) != "f64":
+                        continue  # cursors, counters and flags carry no rounding residue
+                    if any(x == me for x in subs) and any(x[0] in ("arg", "get") for x in subs):
+                        totals.add(p_)
+            ret = r["ret"]
+            seen_guard = set()
+            for conds, leaf in _leaves(ret):
+                if not _is_const(leaf):
+                    continue
+                for atom, pol in conds:
+                    if atom[0] != "==" or atom in seen_guard:
+                        continue
+                    seen_guard.add(atom)
+                    sides = [x for x in (atom[1], atom[2]) if not _is_const(x)]
+                    if not sides or not any(y[0] in ("select", "accum", "arg", "get", "/", "*", "+", "-", "abs", "sqrt") for x in sides for y in [x]):
+                        continue
+                    dep = sorted({x[1] for side in sides for x in _subterms(side) if x[0] == "pre" and x[1] in totals})
+                    inst = "%s: guard `%s == %s` returning %s" % (lab, show(atom[1])[:40], show(atom[2])[:40], leaf[2])
+                    if dep and "%s:%s" % (lab, "+".join(d.split(".", 1)[1] for d in dep)) in reported:
+                        continue
+                    if dep:
+                        reported.add("%s:%s" % (lab, "+".join(d.split(".", 1)[1] for d in dep)))
+                        S.bad("V4", "residue-prone-guard", "%s:%s" % (lab, "+".join(d.split(".", 1)[1] for d in dep)),
+                              "%s decides its degenerate-window arm (constant %s) by an exact equality on a quantity derived from the running total(s) %s: after earlier activity such totals keep rounding residue, the test fails on a flat window and the formula branch divides residue by residue"
+                              % (lab, leaf[2], ", ".join(dep)), loc(fn.span))
+                    else:
+                        S.ok("V4", inst, depends_on="window slots / inputs only")
     # V2 neutral constants of the guarded arms (from the gated output terms)
     from terms import leaves, is_const
     for s, want in NEUTRAL.items():
@@ -99,6 +201,7 @@ def run(tier, repo=None, tag="repo"):
     rep.rule("V1", "every f64 division in a Next/Reset body has a denominator that excludes 0 under the premises (price > 0, volume >= 0, period >= 1), is dominated by a zero guard, or is a named exception", 12)
     rep.rule("V2", "the guarded arms return exactly the documented neutral constants (FastStochastic 50 on both paths, CCI 0)", 3)
     rep.rule("V3", "sqrt operands are non-negative", 1)
+    rep.rule("V4", "exact zero/equality guards of degenerate-window arms test only window slots or inputs, never a value derived from a running total (which keeps rounding residue)", 2)
     F = ir.load("default", repo, tag)
     apply(F, Sink(rep))
     inv = rep.rule("V0", "all 22 indicators analysed (fully inlined terms, class invariants)", 22)
